@@ -40,6 +40,7 @@ const (
 	c17PeekPhase  = 10 * time.Millisecond
 	c17KeyPhase   = 2 * time.Millisecond
 	c17CachePhase = 1 * time.Millisecond
+	c17LockHeld   = "<cache lock held>"
 	// expiries above c17LongMs (20 min) are "long": the case never ticks through
 	// them; only the lower half of the window oracle applies (present at every
 	// tick before floor(0.95e)), checked while the case advances seconds..hours
@@ -82,6 +83,9 @@ type c17Case struct {
 	Limit int     `json:"limit"`          // 0 = unlimited
 	Exp   int     `json:"exp"`            // cache expiry in ms
 	Name  string  `json:"name,omitempty"` // WithName of cache 0, "" = none
+	// Shared: both caches are built from ONE []CacheOption slice (WithLimit(Limit),
+	// WithName(Name)); C2.Limit and C2.Name then equal those of cache 0
+	Shared bool `json:"shared,omitempty"`
 	C2    *c17Cfg `json:"c2,omitempty"`   // second cache, created 1 us after the first
 	J     int     `json:"j"`     // ns slept before NewCache (seeds the cache's jitter PRNG)
 	Off   int     `json:"off"`   // wheel phase: ticks before the first op
@@ -97,6 +101,18 @@ func c17Key(i int) string { return fmt.Sprintf("k%d", i) }
 // present while ticks-since-set < lo and absent once ticks-since-set >= hi.
 // A 1 ms margin absorbs float rounding of the jitter product (costs one tick
 // of sharpness only when 0.95e or 1.05e is a whole number of seconds).
+// c17Sub: the jittered expiry may be below the wheel's 1 s interval
+// (0.95e < 1 s). The statement fixes expiry only "to the granularity of the
+// one-second wheel tick", so for such an entry the instant of the drop is
+// UNSPECIFIED between the Set itself and the tick at which floor(1.05e)
+// (at least one) ticks have passed: it may vanish at once (today: overwrite of
+// a cached key) or at the next tick (today: new key); required is only that it
+// is gone by then, that operations keep completing and that other entries are
+// unaffected.
+func c17Sub(expMs int) bool {
+	return int64(expMs)*1000*95/100-1000 < 1000000
+}
+
 func c17Window(expMs int) (lo, hi int) {
 	us := int64(expMs) * 1000
 	lo = int((us*95/100 - 1000) / 1000000)
@@ -117,6 +133,7 @@ type c17Ent struct {
 	set    int // wheel ticks seen when last set
 	lo, hi int
 	long   bool // expiry > c17LongMs: never ticked through
+	sub    bool // c17Sub: may be dropped at any time from its Set on
 }
 
 type c17Model struct {
@@ -169,7 +186,10 @@ func (m *c17Model) set(k string, val, tick, expMs int) string {
 	} else if tick+hi > m.shortEnd {
 		m.shortEnd = tick + hi
 	}
-	m.ents[k] = &c17Ent{val: val, set: tick, lo: lo, hi: hi, long: expMs > c17LongMs}
+	m.ents[k] = &c17Ent{val: val, set: tick, lo: lo, hi: hi, long: expMs > c17LongMs, sub: c17Sub(expMs)}
+	if c17Sub(expMs) {
+		m.classes["set-sub-interval-expiry"] = true
+	}
 	m.touch(k)
 	if m.limit > 0 && len(m.order) > m.limit {
 		victim := m.order[len(m.order)-1]
@@ -185,6 +205,9 @@ func (m *c17Model) set(k string, val, tick, expMs int) string {
 // the model. Entries may vanish only through expiry: at a tick t in
 // (m.last, T] with lo <= t-set <= hi. The model then follows the observation.
 func (m *c17Model) reconcile(snap map[string]any, T int, what string) string {
+	if _, held := snap[c17LockHeld]; held {
+		return fmt.Sprintf("%s: at tick %d every goroutine of the bubble is idle but the cache lock is held: an operation or expiry callback is blocked for good inside the cache (later operations cannot complete)", what, T)
+	}
 	keys := make([]string, 0, len(m.ents))
 	for k := range m.ents {
 		keys = append(keys, k)
@@ -204,6 +227,16 @@ func (m *c17Model) reconcile(snap map[string]any, T int, what string) string {
 			if age >= e.lo {
 				m.classes["in-window-present"] = true
 			}
+			continue
+		}
+		if e.sub { // unspecified instant: from the Set on (age >= hi is checked above)
+			m.classes["expired"] = true
+			if T == e.set && m.last == T {
+				m.classes["sub-interval-dropped-at-once"] = true
+			} else {
+				m.classes["sub-interval-dropped-at-tick"] = true
+			}
+			m.drop(k)
 			continue
 		}
 		first, lastOK := e.set+e.lo, e.set+e.hi
@@ -425,6 +458,13 @@ func c17CheckGroup(ms []*c17Model, exps []int, op c17Op, vals []int, errs []erro
 				m.classes["take-same-instant"] = true
 			}
 			ent, cached := m.ents[key]
+			if cached && ent.sub && len(fst) > 0 {
+				// sub-interval expiry: the instant of the drop is unspecified, so a
+				// caller finding the entry gone already is as good as one finding it
+				m.drop(key)
+				cached = false
+				m.classes["sub-interval-gone-before-take"] = true
+			}
 			switch {
 			case fl != nil && !cached:
 				if len(fst) > 0 {
@@ -558,19 +598,31 @@ func c17Run(c c17Case, classes map[string]bool) string {
 			classes["two-caches-same-name"] = true
 		}
 	}
+	var sharedOpts []CacheOption
 	for i, cfg := range cfgs {
 		if i > 0 {
 			time.Sleep(time.Microsecond) // another seed for the second cache's jitter PRNG
+			if c.Shared {
+				cfg.Limit, cfg.Name = cfgs[0].Limit, cfgs[0].Name
+				classes["two-caches-shared-options"] = true
+			}
 		}
 		var opts []CacheOption
+		if i > 0 && c.Shared {
+			opts = sharedOpts // the very option values cache 0 was built from
+		} else {
+			if cfg.Limit > 0 {
+				opts = append(opts, WithLimit(cfg.Limit))
+			}
+			if cfg.Name != "" {
+				opts = append(opts, WithName(cfg.Name))
+			}
+			sharedOpts = opts
+		}
 		if cfg.Limit > 0 {
-			opts = append(opts, WithLimit(cfg.Limit))
 			classes[fmt.Sprintf("limit-%d", cfg.Limit)] = true
 		} else {
 			classes["limit-none"] = true
-		}
-		if cfg.Name != "" {
-			opts = append(opts, WithName(cfg.Name))
 		}
 		cache, err := NewCache(time.Duration(cfg.Exp)*time.Millisecond, opts...)
 		if err != nil {
@@ -602,8 +654,14 @@ func c17Run(c c17Case, classes map[string]bool) string {
 		}
 		kit.Wait()
 	}
+	// peek1 is only called with the bubble quiescent (after kit.Wait): if the
+	// cache lock is taken then, its holder is blocked for good inside the
+	// critical section; report that instead of blocking on the mutex (which
+	// synctest cannot see). The marker entry makes the reconciliation fail.
 	peek1 := func(cache *Cache) map[string]any {
-		cache.lock.Lock()
+		if !cache.lock.TryLock() {
+			return map[string]any{c17LockHeld: nil}
+		}
 		defer cache.lock.Unlock()
 		s := make(map[string]any, len(cache.data))
 		for k, v := range cache.data {
@@ -662,6 +720,24 @@ func c17Run(c c17Case, classes map[string]bool) string {
 		return v.(*positionEntry).pos, true
 	}
 
+	// run executes one cache operation in its own goroutine and reports whether
+	// it returned once the bubble is quiescent. Set/Get/Del do not wait for time
+	// to pass, so an operation still pending then is blocked for good (a hang),
+	// which would otherwise spin the virtual clock for ever.
+	run := func(f func()) bool {
+		done := make(chan struct{})
+		go func() {
+			f()
+			close(done)
+		}()
+		kit.Wait()
+		select {
+		case <-done:
+			return true
+		default:
+			return false
+		}
+	}
 	sleepUntil(c17OpPhase)
 	if f := stepTo(c.Off, "initial offset"); f != "" {
 		return f
@@ -674,12 +750,15 @@ func c17Run(c c17Case, classes map[string]bool) string {
 		old, live := m.ents[key]
 		oldPos, havePos := wheelPos(cache, key)
 		now := tickNow()
-		if custom {
-			cache.SetWithExpire(key, val, time.Duration(expMs)*time.Millisecond)
-		} else {
-			cache.Set(key, val)
+		if !run(func() {
+			if custom {
+				cache.SetWithExpire(key, val, time.Duration(expMs)*time.Millisecond)
+			} else {
+				cache.Set(key, val)
+			}
+		}) {
+			return what + ": Set did not return (blocked with every goroutine of the bubble idle)"
 		}
-		kit.Wait()
 		if live {
 			classes["reset-live"] = true
 			if now-old.set >= old.lo {
@@ -730,8 +809,11 @@ func c17Run(c c17Case, classes map[string]bool) string {
 				return f
 			}
 		case "get":
-			v, ok := cache.Get(key)
-			kit.Wait()
+			var v any
+			var ok bool
+			if !run(func() { v, ok = cache.Get(key) }) {
+				return what + ": Get did not return (blocked with every goroutine of the bubble idle)"
+			}
 			e, live := m.ents[key]
 			if live {
 				if !ok || v != any(e.val) {
@@ -749,8 +831,9 @@ func c17Run(c c17Case, classes map[string]bool) string {
 				return f
 			}
 		case "del":
-			cache.Del(key)
-			kit.Wait()
+			if !run(func() { cache.Del(key) }) {
+				return what + ": Del did not return (blocked with every goroutine of the bubble idle)"
+			}
 			if _, live := m.ents[key]; live {
 				classes["del-live"] = true
 			}
@@ -965,7 +1048,9 @@ func c17Interp(t *testing.T, c c17Case) (v kit.Verdict) {
 // ---- generator ----
 
 func c17GenExp(rt *rapid.T, label string) int {
-	switch rapid.SampledFrom([]string{"small", "small", "small", "mid", "mid", "rev", "big", "long", "long"}).Draw(rt, label+"-class") {
+	switch rapid.SampledFrom([]string{"small", "small", "small", "mid", "mid", "rev", "big", "long", "long", "sub"}).Draw(rt, label+"-class") {
+	case "sub": // below (or just around) the wheel interval: 1 ms .. 1100 ms
+		return rapid.IntRange(1, 1100).Draw(rt, label)
 	case "long": // never ticked through: hours, days, and the multi-day values named in the follow-up
 		switch rapid.SampledFrom([]string{"hours", "days", "named", "named", "over10d"}).Draw(rt, label+"-long") {
 		case "hours":
@@ -1104,6 +1189,14 @@ func c17Gen(rt *rapid.T) c17Case {
 			Name:  names[1],
 		}
 		exps = append(exps, c.C2.Exp)
+		if rapid.IntRange(0, 2).Draw(rt, "shared-options") == 0 {
+			// option values reused across instances: one []CacheOption for both caches
+			c.Shared = true
+			if c.Limit == 0 {
+				c.Limit = rapid.IntRange(1, 3).Draw(rt, "shared-limit")
+			}
+			c.C2.Limit, c.C2.Name = c.Limit, c.Name
+		}
 	}
 	minOps := rapid.SampledFrom([]int{1, 6, 12, 24}).Draw(rt, "min-ops")
 	raw := rapid.SliceOfN(c17GenRawOp(c.NK, nc), minOps, 60).Draw(rt, "ops")
